@@ -4,7 +4,7 @@
    pruning them would remove the runtime error. *)
 EXTENDS LangGen
 MCP == [names |-> {"x", "y"}, funs |-> {"f"}, arity |-> [f \in {"f"} |-> 1], ty |-> "num",
-        kinds |-> {"make", "set", "shout", "call", "def", "trap"},
-        prelude |-> <<Make(900, "x", Num(0))>>, preDecl |-> {"x"}, ops |-> {},
+        kinds |-> {"make", "set", "shout", "call", "def", "trap"} \cup (IF IOEnv.TRAPVAR = "1" THEN {"juggle", "dyncond", "if", "empty"} ELSE {}),
+        prelude |-> <<Make(900, "x", Num(0))>>, preDecl |-> {"x"}, ops |-> IF IOEnv.TRAPVAR = "1" THEN {"minus"} ELSE {},
         maxStmts |-> atoi(IOEnv.MAXSTMTS), minStmts |-> 2, maxDepth |-> 2, fuel |-> 600, events |-> atoi(IOEnv.EVENTS)]
 ====
